@@ -582,7 +582,7 @@ def _unknown(res):
         return None
     r = res[1]
     xs = [x for c in r.get("comps", []) for x in c] + list(r.get("order") or [])
-    u = [x.r for x in xs if isinstance(x, H.Unknown)]
+    u = [x.r for x in xs if isinstance(x, H.Unknown)] + [repr(x) for x in xs if isinstance(x, int) and not 0 <= x <= 5000]
     return f"the result contains {u[:3]} which is not a node of the input" if u else None
 
 
